@@ -177,6 +177,71 @@ func checkBlock(ch *sim.Chain, parent consensus.State, b types.Block, bs consens
 		return stats.Failf("C18/roundtrip", "V2BlockData round trip differs (%v)", d.Err())
 	}
 
+	// (2b) the decoded elements are independent values: no proof whose spare capacity covers another proof, and
+	// after a competing (empty) block is applied, refreshing the proofs of the original set and of the decoded set
+	// with that block's update leaves them bit-for-bit equal and valid for the new state (a transaction that
+	// arrived in multiproof form and waits in a pool while another block is mined)
+	if herr := gen.AppendHazard(reflect.ValueOf(&dec).Elem()); herr != nil {
+		return stats.Failf("C18/decoded-aliasing", "multiproof-decoded transactions alias each other: %v", herr)
+	}
+	if herr := gen.AppendHazard(reflect.ValueOf(&dblock).Elem()); herr != nil {
+		return stats.Failf("C18/decoded-aliasing", "decoded block aliases itself: %v", herr)
+	}
+	{
+		empty := sim.CloneBlock(b)
+		empty.Transactions = nil
+		empty.V2 = &types.V2BlockData{Height: b.V2.Height}
+		ebs := consensus.V1BlockSupplement{Transactions: nil, ExpiringFileContracts: bs.ExpiringFileContracts}
+		if sim.Reseal(parent, &empty) == nil && consensus.ValidateBlock(parent, empty, ebs) == nil {
+			next, au := consensus.ApplyBlock(parent, empty, ebs, ch.TargetTimestamp(parent.Index.Height+1))
+			orig := make([]types.V2Transaction, len(txns))
+			for i := range txns {
+				orig[i] = sim.CloneV2(txns[i])
+			}
+			refresh := func(set []types.V2Transaction) {
+				for i := range set {
+					t := &set[i]
+					for j := range t.SiacoinInputs {
+						if t.SiacoinInputs[j].Parent.StateElement.LeafIndex != types.UnassignedLeafIndex {
+							au.UpdateElementProof(&t.SiacoinInputs[j].Parent.StateElement)
+						}
+					}
+					for j := range t.SiafundInputs {
+						if t.SiafundInputs[j].Parent.StateElement.LeafIndex != types.UnassignedLeafIndex {
+							au.UpdateElementProof(&t.SiafundInputs[j].Parent.StateElement)
+						}
+					}
+					for j := range t.FileContractRevisions {
+						if t.FileContractRevisions[j].Parent.StateElement.LeafIndex != types.UnassignedLeafIndex {
+							au.UpdateElementProof(&t.FileContractRevisions[j].Parent.StateElement)
+						}
+					}
+					for j := range t.FileContractResolutions {
+						if t.FileContractResolutions[j].Parent.StateElement.LeafIndex != types.UnassignedLeafIndex {
+							au.UpdateElementProof(&t.FileContractResolutions[j].Parent.StateElement)
+						}
+						if sp, ok := t.FileContractResolutions[j].Resolution.(*types.V2StorageProof); ok {
+							au.UpdateElementProof(&sp.ProofIndex.StateElement)
+						}
+					}
+				}
+			}
+			refresh(orig)
+			refresh(dec)
+			if !bytes.Equal(plain(orig), plain(dec)) {
+				return stats.Failf("C18/decoded-then-updated", "after refreshing the proofs with a later block's update, the multiproof-decoded set differs from the original set")
+			}
+			for i := range dec {
+				if err := next.Elements.ValidateTransactionElements(dec[i]); err != nil {
+					if oerr := next.Elements.ValidateTransactionElements(orig[i]); oerr == nil {
+						return stats.Failf("C18/decoded-then-updated", "transaction %d of the decoded set no longer verifies after a proof refresh (the original does): %v", i, err)
+					}
+				}
+			}
+			rec.Label("decoded-then-updated")
+		}
+	}
+
 	// (3) outlines
 	nT := len(b.Transactions) + len(txns)
 	subsets := []uint64{0}
